@@ -17,6 +17,7 @@ code -> spec
     walk's score, the wrapper's log_prob and sequence_log_probs applied to the model's outputs) that
     SeqProbTrace.tla must accept through the original StepWith action.
 """
+import math
 import sys
 
 import torch
@@ -292,11 +293,20 @@ def check_ctc_group(ctx, key, g, V, D, quick):
             x = (Ws.double() / D).to(dtype)
         else:
             x = _sp.log_weights(Ws, dtype, _sp.dyadic_shifts(rng, (len(sel), n)))
+        filler = None
+        if with_lens and ci % 2 == 0:
+            # whatever lies beyond an element's valid length must not matter -- non-finite values included
+            filler = rng.choice((math.nan, math.inf, 0.0) if is_probs else (-math.inf, math.nan, math.inf))
+            x = x.clone()
+            for j, i in enumerate(sel):
+                if g[i]["L"] < n:
+                    x[j, g[i]["L"]:] = filler
         if not bf:
             x = x.transpose(0, 1).contiguous()
         b = blank - V if neg else blank
         module = bool(ci % 2)
-        extra = dict(is_probs=is_probs, batch_first=bf, blank_idx=b, dtype=str(dtype), in_lens=with_lens, module=module)
+        extra = dict(is_probs=is_probs, batch_first=bf, blank_idx=b, dtype=str(dtype), in_lens=with_lens, module=module,
+                     invalid_frames_filled_with=repr(filler))
         in_lens = L[idx] if with_lens else None
         try:
             if module:
